@@ -534,9 +534,9 @@ impl Req {
         }
     }
     /// The input half of an `sv`-format line.
-    pub fn line_input(&self, stream: &str, id: u64, port: u16) -> String {
+    pub fn line_input(&self, stream: &str, id: u64) -> String {
         format!(
-            "{} {} {} {} {} {} {} {} {} {} {} {}",
+            "{} {} {} {} {} {} {} {} {} {} {}",
             stream,
             id,
             self.ep,
@@ -550,8 +550,7 @@ impl Req {
             hex(&self.wire_body()),
             if self.meta.is_empty() { "_" } else { &self.meta },
             if self.sent_canon.is_empty() { "-" } else { &self.sent_canon },
-            self.nonce,
-            port
+            self.nonce
         )
     }
 }
@@ -597,14 +596,17 @@ pub fn digest(resp: Option<RawResponse>) -> Got {
 }
 
 impl Got {
-    pub fn line_output(&self, delta: &str, followup: &str) -> String {
+    /// The output half: `port` is the client's own port on the connection that
+    /// carried the answer (an observation, compared with the echoed peer port).
+    pub fn line_output(&self, port: u16, delta: &str, followup: &str) -> String {
         format!(
-            "{} {} {} {} {} {} {} {} {}",
+            "{} {} {} {} {} {} {} {} {} {}",
             self.status,
             if self.echo.v.is_empty() { "-" } else { &self.echo.v },
             if self.echo.m.is_empty() { "-" } else { &self.echo.m },
             if self.echo.u.is_empty() { "-" } else { &self.echo.u },
             if self.echo.h.is_empty() { "-" } else { &self.echo.h },
+            port,
             self.echo.p,
             delta,
             self.errbody_ok,
